@@ -17,6 +17,7 @@ import (
 	"sync"
 	"sync/atomic"
 	"syscall"
+	"time"
 
 	"tags.cncf.io/container-device-interface/pkg/cdi"
 )
@@ -285,6 +286,10 @@ func checkC13(c *Ctx) {
 			c.AddEvaluations(1)
 		}
 	})
+	// overlapping explicit refreshes around a repair: a refresh that began before the
+	// repair must not overwrite the result of one that began after it
+	c.RunCases("overlap", c.pick(12, 120), 0, func(cs *Case) { c13Overlap(cs) })
+	c.Floor("overlapping_refresh_scenarios", 5)
 	for _, k := range append(append([]string{}, c13FileFaults...), c13DirFaults...) {
 		c.Floor("fault:"+k, 3)
 		c.Floor("repaired:"+k, 3)
@@ -640,4 +645,88 @@ func c13Scenario(cs *Case, base *Pop, f c13Fault, second *c13Fault, auto bool, n
 	}
 	c.Count("repaired:"+f.kind, 1)
 	c.Sample(4, map[string]any{"fault": f.kind, "position": pos(f), "second_fault": sk, "mode": mode, "configured_dirs": len(p.Conf), "files_required_in_error_report": len(mustErr)})
+}
+
+// c13Overlap: manual mode. Refresh R1 is held (scan.beforeRead) at a file that
+// sorts after the bad file, i.e. after it has read the bad file; the bad file
+// is repaired; Refresh R2 is started. Whatever the interleaving the library
+// allows, once both have returned the error entry must be gone and the
+// repaired device must resolve: the last refresh to begin saw the repair.
+func c13Overlap(cs *Case) {
+	c, r := cs.Ctx, cs.R
+	root := filepath.Join(c.Scratch, sanitize(cs.Name))
+	dir := filepath.Join(root, "d")
+	other := filepath.Join(root, "other")
+	must(os.MkdirAll(dir, 0o755))
+	must(os.MkdirAll(other, 0o755))
+	defer os.RemoveAll(root)
+	spec := func(dev string) []byte {
+		return []byte(fmt.Sprintf(`{"cdiVersion":"0.6.0","kind":"vendor.com/gpu","devices":[{"name":"%s","containerEdits":{"env":["D=%s"]}}]}`, dev, dev))
+	}
+	bad := filepath.Join(dir, "a-bad.json")
+	gate := filepath.Join(dir, "z-gate.json")
+	badContent := [][]byte{[]byte("{\"cdiVersion\": "), []byte(`{"cdiVersion":"0.6.0","kind":"vendor.com/gpu","devices":[]}`), nil}[r.Intn(3)]
+	must(os.WriteFile(bad, badContent, 0o644))
+	must(os.WriteFile(gate, spec("gate"), 0o644))
+	must(os.WriteFile(filepath.Join(other, "o.json"), spec("other"), 0o644))
+	dirs := []string{other, dir}
+	if chance(r, 50) {
+		dirs = []string{dir, other}
+	}
+	cache, _ := cdi.NewCache(cdi.WithSpecDirs(dirs...), cdi.WithAutoRefresh(false))
+	if len(cache.GetErrors()[bad]) == 0 {
+		cs.Violation("not-reported", nil, "the bad Spec file has no error entry", nil)
+		return
+	}
+	held := make(chan struct{})
+	release := make(chan struct{})
+	var once sync.Once
+	unhook := hookPrefix(gate, func(point, arg string, n int) {
+		if point == "scan.beforeRead" && arg == gate {
+			first := false
+			once.Do(func() { first = true })
+			if first {
+				close(held)
+				<-release
+			}
+		}
+	})
+	defer unhook()
+	r1 := make(chan error, 1)
+	go func() { r1 <- cache.Refresh() }()
+	select {
+	case <-held:
+	case <-time.After(20 * time.Second):
+		c.Inconclusive("hook-not-reached")
+		close(release)
+		<-r1
+		return
+	}
+	// R1 has read the bad file and is parked; now the repair
+	must(os.WriteFile(bad, spec("repaired"), 0o644))
+	r2 := make(chan error, 1)
+	go func() { r2 <- cache.Refresh() }()
+	var e2 error
+	r2First := false
+	select {
+	case e2 = <-r2:
+		r2First = true // the library lets refreshes overlap
+	case <-time.After(150 * time.Millisecond):
+	}
+	close(release)
+	e1 := <-r1
+	if !r2First {
+		e2 = <-r2
+	}
+	_ = e1
+	c.Count("overlapping_refresh_scenarios", 1)
+	if r2First {
+		c.Count("overlap_second_refresh_finished_first", 1)
+	}
+	c.Distinct(fmt.Sprintf("overlap|%d|%v|%v", len(badContent), dirs[0] == dir, r2First))
+	errs := cache.GetErrors()
+	dev := cache.GetDevice("vendor.com/gpu=repaired")
+	if e2 != nil || len(errs) != 0 || dev == nil {
+		cs.Violation("stale-error", map[string]string{"mode": "overlapping-refreshes"}, fmt.Sprintf("a refresh that began after the repair has returned (err=%v), yet GetErrors() = %v and the repaired device resolves = %v: an older, overlapping refresh overwrote its result", e2, errs, dev != nil), map[string]any{"second_refresh_finished_first": r2First})
+	}
 }
